@@ -365,3 +365,10 @@ def r5(cx, rec):
             cmpb = True
             rec.site(hc, sb, 'protocol string compared byte by byte')
     rec.need(cmpb and bool(inv), 'protocol-string-unchecked', hc, None, 'Handshake::check does not compare the protocol string')
+
+
+@TABLE.rule('6', 'K1', 'announcements on a connection are sent or held back by whether the peer has unchoked us (which it can only have done '
+            'after its handshake): the broadcast path never writes unconditionally to a connection (shared with C11)', floor=3)
+def r6(cx, rec):
+    from rules import C11
+    C11.r3(cx, rec)
